@@ -109,6 +109,17 @@ def rule_master(P, R, r3):
                 and n.targets[0].id == allc and 'running_identifiers()' in ast.unparse(n.value)]
         all_ok = a in stmts and any(ast.unparse(s) == b for s in sm.node.body) and len(fall) == 1 and \
             {tuple(f) for f in factmap(sm).at(fall[0])} == {(allc, False)}
+        # (declared Masters restricted to those the local instance sees RUNNING: stricter, '' cannot be among them)
+        from ..defuse import closed_text
+        RUN = 'self.local_state_modes.running_identifiers()'
+        first = [n for n in sm.node.body if isinstance(n, ast.Assign) and isinstance(n.targets[0], ast.Name)
+                 and n.targets[0].id == allc]
+        fall2 = [n for n in own_nodes(sm.node) if isinstance(n, ast.Assign) and isinstance(n.targets[0], ast.Name)
+                 and n.targets[0].id == allc and not any(n is x for x in first)]
+        all_ok = all_ok or (len(first) == 1 and closed_text(sm, first[0].value) in (
+            'self.get_master_identifiers() & ' + RUN, RUN + ' & self.get_master_identifiers()',
+            'self.get_master_identifiers().intersection(%s)' % RUN) and len(fall2) == 1 and
+            closed_text(sm, fall2[0].value) == RUN and {tuple(f) for f in factmap(sm).at(fall2[0])} == {(allc, False)})
     R.check(r3, ok2 and core_ok, 'core instances have priority among the candidates', 'select|core-first', sm.loc(),
             'select_master does not restrict the candidates to the core identifiers when one of them is a candidate')
     R.check(r3, ok2 and all_ok, 'Masters already declared by RUNNING instances have priority over electing anew',
